@@ -93,8 +93,9 @@ func feesPaidFloorFormula(c *Ctx) string {
 		"DataFeePaid":  "((p1.TotalDataBytes * uint64(" + data + ".Satoshis)) / uint64(" + data + ".Bytes))",
 		"TotalFeePaid": "(alloc#0.DataFeePaid + alloc#0.StdFeePaid)",
 	}
+	full := "(" + want["DataFeePaid"] + " + " + want["StdFeePaid"] + ")"
 	for f, w := range want {
-		if got[f] != w {
+		if got[f] != w && !(f == "TotalFeePaid" && got[f] == full) {
 			return "which does not compute " + f + " by the floor formula"
 		}
 	}
